@@ -362,12 +362,12 @@ def newVal (o : Opt) (arg : Option Str) : Val :=
     | some a => .str a
     | none => .null
 
-/-- `set_option(g, opti, optarg, setby, do_alloc)` (allocation is not modelled) -/
+/-- `set_option(g, opti, optarg, setby, do_alloc)` on abstract values (the allocation layer is `Alloc.lean`, whose erasure this is) -/
 def setOption (g : G) (i : Nat) (arg : Option Str) (src : Nat) : R :=
   if g.setter i == src then .done g .esyntax true
   else match verifyTypeRange (g.opt i) arg src with
     | .fault => .fault
-    | .exc => .done g .einval false
+    | .exc => .done g .esyntax false      -- `if (verify_type_and_range(...) != eslOK) return eslESYNTAX;` — the exception's eslEINVAL is not passed on, errbuf is not written
     | .bad => .done g .esyntax true
     | .good => toggleLoop (g.put i (newVal (g.opt i) arg) src) i src (optlistElems (g.opt i).toggle)
 
